@@ -216,6 +216,43 @@ def handleLru (j : Json) : Option Json := do
     (r.2.2 :: acc.1, r.2.1)) ([], ⟨cap, []⟩)
   some (Json.mkObj [("hits", Json.arr (hits.reverse.map Json.bool).toArray), ("size", Json.num c.entries.length)])
 
+def parseCondK (s : String) : Option C16.Cond :=
+  match s with | "tt" => some .tt | "ff" => some .ff | "unk" => some .unk | _ => none
+def parseIterK (s : String) : Option C16.Iter :=
+  match s with | "empty" => some .empty | "nonempty" => some .nonempty | "unk" => some .unk | _ => none
+
+partial def parseStmt (j : Json) : Option C16.Stmt := do
+  let a ← getArr? j
+  let body (k : Nat) : Option (List C16.Stmt) := do (← getArr? a[k]!).toList.mapM parseStmt
+  match (← getStr? a[0]!) with
+  | "simple" => some .simple | "ret" => some .ret | "raise" => some .raise | "brk" => some .brk | "cont" => some .cont
+  | "assert" => some (.assertC (← (getStr? a[1]!) >>= parseCondK))
+  | "if" => some (.ite (← (getStr? a[1]!) >>= parseCondK) (← body 2) (← body 3))
+  | "while" => some (.whileS (← (getStr? a[1]!) >>= parseCondK) (← body 2))
+  | "for" => some (.forS (← (getStr? a[1]!) >>= parseIterK) (← body 2))
+  | "with" => some (.withS (← body 1))
+  | _ => none
+
+def outName : C16.Out → String
+  | .normal => "normal" | .ret => "ret" | .raise => "raise" | .brk => "brk" | .cont => "cont" | .fuel => "fuel"
+
+def handleBlocking (j : Json) : Option Json := do
+  let st ← (field? j "stmt") >>= parseStmt
+  let par ← (field? j "parent") >>= getStr?
+  let p : C16.Par := if par == "loop" then .loop else .none
+  some (Json.mkObj [("b", Json.bool (C16.blocks p st))])
+
+def handleExec (j : Json) : Option Json := do
+  let ss ← (field? j "stmts") >>= getArr?
+  let ss ← ss.toList.mapM parseStmt
+  let bits ← (field? j "bits") >>= getArr?
+  let bits ← bits.toList.mapM getBool?
+  let fuel ← (field? j "fuel") >>= getNat?
+  let r := C16.execList (fun i => bits.getD i false) fuel ss ⟨0⟩
+  let r2 := C16.execList (fun i => bits.getD i false) fuel (C16.deleteUnreachable ss) ⟨0⟩
+  some (Json.mkObj [("out", outName r.1), ("pos", Json.num r.2.pos), ("out_del", outName r2.1), ("pos_del", Json.num r2.2.pos),
+                    ("kept", Json.num (C16.deleteUnreachable ss).length)])
+
 def dispatch (j : Json) : Json :=
   match (field? j "suite") >>= getStr? with
   | some "sched" => (handleSched j).getD bad
@@ -227,6 +264,8 @@ def dispatch (j : Json) : Json :=
   | some "sumrange" => (handleSumRange j).getD bad
   | some "driver" => (handleDriver j).getD bad
   | some "lru" => (handleLru j).getD bad
+  | some "blocking" => (handleBlocking j).getD bad
+  | some "exec" => (handleExec j).getD bad
   | _ => bad
 
 partial def loop (h : IO.FS.Stream) (out : IO.FS.Stream) : IO Unit := do
